@@ -14,6 +14,13 @@ def tags(q, acc=None):
         if isinstance(t, str):
             if t == "join":
                 acc.add("join." + q[1])
+            elif t == "aggsets":
+                acc.add("aggsets." + (q[5] if len(q) > 5 else "sets"))
+                for fn, d, arg, f in q[3]:
+                    acc.add("agg." + fn)
+                    tags(arg, acc)
+                tags(q[4], acc)
+                return acc
             elif t == "agg":
                 acc.add("agg")
                 for fn, d, arg, f in q[2]:
@@ -65,7 +72,7 @@ def subqueries(q, path=()):
     """(path, subterm) for every query-valued position."""
     out = [(path, q)]
     t = q[0]
-    pos = {"filter": [2], "project": [2], "join": [3, 4], "agg": [3], "distinct": [1], "union": [2, 3], "sort": [2], "limit": [3]}.get(t, [])
+    pos = {"filter": [2], "project": [2], "join": [3, 4], "agg": [3], "aggsets": [4], "distinct": [1], "union": [2, 3], "sort": [2], "limit": [3]}.get(t, [])
     for i in pos:
         out += subqueries(q[i], path + (i,))
     return out
@@ -78,6 +85,15 @@ class SemDiff:
         self.component = component
         self.stats = {"cases": 0, "agree": 0, "model_err": 0, "engine_rejects": 0, "mismatch": 0}
         self.reject_samples = {}
+
+    @staticmethod
+    def cap_of(config):
+        import re
+        for st in config:
+            m = re.match(r"SET batch_size TO (\d+)", st)
+            if m:
+                return max(1, min(400, int(m.group(1))))
+        return 400
 
     def model_rows(self, db, queries):
         lines = [f"case {i} sem {qgen.db_sexp(db)} ;; {qgen.sexp(q)}" for i, q in enumerate(queries)]
@@ -93,7 +109,9 @@ class SemDiff:
 
     def engine_rows(self, db, queries, config, inserts, threads=4):
         """Returns list (per query) of ('rows', rows, cols) | ('err', msg) | ('crash', info)."""
-        stmts = qgen.setup_sql(db, inserts=inserts) + list(config)
+        # session settings first: tables are written under the same batch size they are read with
+        # (lowering batch_size after an INSERT panics in scans - known finding F36, probed by C03)
+        stmts = list(config) + qgen.setup_sql(db, inserts=inserts, cap=self.cap_of(config))
         nsetup = len(stmts)
         sqls = [qgen.Renderer({k: v[0] for k, v in db.items()}).query(q) for q in queries]
         res = self.runner.run(stmts + sqls, threads=threads, timeout=40)
@@ -238,7 +256,7 @@ class SemDiff:
         key = known_key(cur_q, cur_db, kind) if known_key else None
         key = key or f"{self.component}/{kind}/{sig}"
         self.ck.violation(key, f"engine ({name}) disagrees with Sem on a query using {sig}: engine {str(eng[0][1])[:160]} model {str(model[1])[:160]}",
-                          {"kind": "impl-vs-oracle", "config": cfg, "setup": qgen.setup_sql(cur_db, inserts=inserts), "sql": sqls[0],
+                          {"kind": "impl-vs-oracle", "config": cfg, "setup": list(cfg) + qgen.setup_sql(cur_db, inserts=inserts, cap=self.cap_of(cfg)), "sql": sqls[0],
                            "query_sexp": qgen.sexp(cur_q), "db_sexp": qgen.db_sexp(cur_db), "engine": eng[0][1] if eng[0][0] != "crash" else eng[0][1],
                            "model": model[1], "original_sql": sql})
 
